@@ -191,7 +191,12 @@ impl Ldap {
         let id = self.next_msgid();
         self.last_id = id;
         let (tx, rx) = oneshot::channel();
-        self.tx.send((id, op, req, self.controls.take(), tx))?;
+        if let Err(e) = self.tx.send((id, op, req, self.controls.take(), tx)) {
+            // The connection is gone, and with it everybody who could release the ID.
+            let mut msgmap = self.msgmap.lock().expect("msgmap mutex (op send)");
+            msgmap.1.remove(&id);
+            return Err(LdapError::from(e));
+        }
         let response = if let Some(timeout) = self.timeout.take() {
             let res = time::timeout(timeout, rx).await;
             if res.is_err() {
